@@ -577,6 +577,56 @@ def c17_8(ck, prog):
         raise AnalysisBroken('users of the I/O path not found (%d)' % n)
 
 
+def c17_10(ck, prog):
+    """Timed waits of threads queueing for the I/O path expire: the clock of the condition variable is the clock
+    its deadlines are computed from."""
+    PT = 'dbus/dbus-sysdeps-pthread.c'
+    r = ck.rule('C17.10', 'a condition variable measures its timed waits on the clock the deadline was read from: '
+                '_dbus_platform_condvar_new selects CLOCK_MONOTONIC (pthread_condattr_setclock) under exactly the '
+                'conditions under which _dbus_platform_condvar_wait_timeout reads CLOCK_MONOTONIC (clock_gettime); '
+                'in a build where neither is compiled in, both use the realtime clock', 'PAIR',
+                breaks='a deadline taken from the realtime clock is compared with the monotonic clock (or the reverse): '
+                'the wait of a second thread blocking on the same connection never times out, its call is completed '
+                'late or never', floor=1)
+    from engine.cfg import dominators, norm_cond, reach_from
+
+    def guards(fn, callee, want_arg):
+        out = []
+        dom = dominators(fn)
+        for b, i, c in fn.calls(callee):
+            if not any(is_int(a) and a.get('name') == 'CLOCK_MONOTONIC' for a in c['args']) and want_arg:
+                continue
+            g = set()
+            for d in dom.get(b, ()):
+                blk = fn.blocks[d]
+                t = blk.get('term')
+                if d == b or not t or t.get('cond') is None or len(blk['succs']) != 2:
+                    continue
+                via = [k for k, s2 in enumerate(blk['succs']) if s2 is not None and s2 >= 0 and
+                       b in reach_from(fn, [s2], stop={d})]
+                if len(via) == 1 and any(is_ref(x) and x.get('kind') in ('global', 'slocal') for x in walk(t['cond'])):
+                    # only what the two functions can share: conditions on file-level state (have_monotonic_clock)
+                    a, sense = norm_cond(t['cond'])
+                    g.add((estr(a[1]) if a and a[0] == 'truthy' else estr(t['cond']), sense == (via[0] == 0)))
+            out.append(frozenset(g))
+        return out
+    new = prog.fn('_dbus_platform_condvar_new', PT)
+    wait = prog.fn('_dbus_platform_condvar_wait_timeout', PT)
+    if not list(new.calls('pthread_cond_init')) or not list(wait.calls('pthread_cond_timedwait')):
+        raise AnalysisBroken('condition-variable constructor / timed wait no longer use pthread_cond_init / _timedwait')
+    gs = guards(new, 'pthread_condattr_setclock', True)
+    gw = guards(wait, 'clock_gettime', True)
+    key = 'condvar:clock-agreement'
+    if bool(gs) != bool(gw) or set(gs) != set(gw):
+        def show(x):
+            return 'never' if not x else ' / '.join(sorted(' && '.join(('' if v else '!') + n for n, v in sorted(g)) or 'always'
+                                                            for g in x))
+        r.violation(key, new.name, PT, new.line, 'the condition variable is put on CLOCK_MONOTONIC %s, the deadline of a '
+                    'timed wait is read from CLOCK_MONOTONIC %s' % (show(gs), show(gw)))
+    else:
+        r.ok(key, {'monotonic': bool(gs)})
+
+
 def run(ck):
     ck.explanation = (
         'Static rules over dbus-connection.c and dbus-pending-call.c: (WHO) completion goes through one funnel '
@@ -594,6 +644,13 @@ def run(ck):
         c17_6(ck, prog)
         c17_7(ck, prog)
         c17_8(ck, prog)
+        c17_10(ck, prog)
+        from rules.C02 import c02_5
+        lib.shared_rule(ck, prog, 'C17.9', 'the serial a reply is paired by is written into (and read from) the header in '
+                        'the message\'s own byte order, like every other marshalling call on a message\'s bytes (shared '
+                        'with C02.5)', 'TAB', 'a forwarded copy of a message received in the other byte order leaves with '
+                        'a byte-swapped serial while the pending call is keyed by the real one: reply and timeout both go '
+                        'unpaired and the call completes zero times', 12, c02_5)
         c17_2(ck, prog)
         c17_3(ck, prog)
         c17_4(ck, prog)
